@@ -765,6 +765,10 @@ pub fn render_file(p: &Pkg, f: usize) -> String {
           // `return <expr> as T` is inferable, a bare call is not
           if matches!(d.dirty, Some(Dirty::MissingReturnType) | Some(Dirty::EarlyBareReturn)) { "" } else { " as any" }
         ));
+        // expando properties: the transform gathers them into a namespace of the function's name
+        if v % 8 == 5 && d.dirty.is_none() {
+          body.push_str(&format!("{}.label = \"text\";\n{}.limit = 10;\n", d.name, d.name));
+        }
       }
       DK::OverloadedFunction => {
         if d.dirty == Some(Dirty::OverloadUntypedParam) {
@@ -1216,6 +1220,9 @@ pub fn feature_counts(p: &Pkg) -> BTreeMap<&'static str, u64> {
         if d.variant % 3 == 1 {
           *out.entry("feature:static-block").or_default() += 1;
         }
+      }
+      if d.kind == DK::Function && d.variant % 8 == 5 && d.dirty.is_none() {
+        *out.entry("feature:expando-properties").or_default() += 1;
       }
     }
   }
